@@ -9,6 +9,7 @@ CELLS2 = {  # concrete rational cells (rows are cell vectors), unequal edges, bo
     "o": [["3", "0"], ["0", "4"]],
     "t+": [["3", "0"], ["1/2", "4"]],
     "t-": [["3", "0"], ["-3/4", "5/2"]],
+    "t-s": [["3", "0"], ["1", "5/2"]],          # same edge lengths as t-, other tilt (sheared box)
 }
 CELLS3 = {
     "o": [["3", "0", "0"], ["0", "4", "0"], ["0", "0", "5"]],
